@@ -16,7 +16,9 @@ def T(module, *names, partial=False):
           "Kanzi.Properties.C01_none": "Kanzi.C01none", "Kanzi.Properties.C03_bound": "Kanzi.C03", "Kanzi.Properties.C19_levels": "Kanzi.C19",
           "Kanzi.Properties.ConstsTie": "Kanzi.ConstsTie", "Kanzi.Properties.BitOpsTie": "Kanzi.BitOpsTie", "Kanzi.Properties.C12_range": "Kanzi.C12", "Kanzi.Properties.C13_rlt": "Kanzi.C13",
           "Kanzi.Properties.C12_ans1": "Kanzi.C12", "Kanzi.Properties.C12_cm": "Kanzi.C12", "Kanzi.Properties.C13_srt": "Kanzi.C13", "Kanzi.Properties.C01_blockgen": "Kanzi.C01gen",
-          "Kanzi.Properties.C19_paths": "Kanzi.C19", "Kanzi.Properties.C13_alias": "Kanzi.C13", "Kanzi.Properties.C13_lzp": "Kanzi.C13", "Kanzi.Properties.C13_fsd": "Kanzi.C13"}[module]
+          "Kanzi.Properties.C19_paths": "Kanzi.C19", "Kanzi.Properties.C13_alias": "Kanzi.C13", "Kanzi.Properties.C13_lzp": "Kanzi.C13", "Kanzi.Properties.C13_fsd": "Kanzi.C13", "Kanzi.Properties.C12_binary": "Kanzi.C12", "Kanzi.Properties.C12_fpaq": "Kanzi.C12",
+          "Kanzi.Properties.C12_cm_codec": "Kanzi.C12", "Kanzi.Properties.C13_lz": "Kanzi.C13", "Kanzi.Properties.C13_lz_consts": "Kanzi.ConstsTie",
+          "Kanzi.Properties.C12_tpaq": "Kanzi.C12", "Kanzi.Properties.C12_tpaq_codec": "Kanzi.C12"}[module]
     return [{"module": module, "name": n if n.startswith("Kanzi.") else ns + "." + n, "partial": partial or n.endswith("_partial")} for n in names]
 
 
@@ -63,6 +65,10 @@ ANS1 = {"name": "ans1", "kmodel": "ans1", "timeout": 3600}
 IMAGEGEN = {"name": "imagegen", "kmodel": "imagegen", "timeout": 3600}
 ALIAS = {"name": "alias", "kmodel": "alias", "timeout": 3600}
 CLIPATH = {"name": "clipath", "kmodel": "clipath", "timeout": 7200}
+BINENT = {"name": "binent", "kmodel": "binent", "timeout": 7200}
+FPAQ = {"name": "fpaq", "kmodel": "fpaq", "timeout": 7200}
+LZ = {"name": "lz", "kmodel": "lz", "timeout": 7200}
+TPAQPRED = {"name": "tpaqpred", "kmodel": "tpaqpred", "timeout": 7200}
 LZP = {"name": "lzp", "kmodel": "lzp", "timeout": 3600}
 FSD = {"name": "fsd", "kmodel": "fsd", "timeout": 3600}
 SRT = {"name": "srt", "kmodel": "srt", "timeout": 3600}
@@ -225,26 +231,36 @@ PROPS["C12"] = {
                 + T("Kanzi.Properties.C12_ans0", "C12_ans0_single_state", "C12_ans0_interleaved", "C12_ans0_payload_le", "C12_ans0_chunk", "C12_ans0_chunk_sz", "C12_ans0_one_chunk", "C12_ans0_block")
                 + T("Kanzi.Properties.C12_range", "C12_range_init", "C12_range_renorm", "C12_range_renorm_model", "C12_range_step", "C12_range_tables", "C12_range_payload", "C12_range_chunk", "C12_range_one_chunk", "C12_range_chunk_lr", "C12_range_block")
                 + T("Kanzi.Properties.C12_ans1", "C12_ans1_params", "C12_ans1_header", "C12_ans1_header_exact", "C12_ans1_single_state", "C12_ans1_interleaved", "C12_ans1_payload_le", "C12_ans1_chunk", "C12_ans1_chunk_sz", "C12_ans1_one_chunk", "C12_ans1_block", "C12_ans1_block_ctor")
-                + T("Kanzi.Properties.C12_cm", "C12_cm_init", "C12_cm_new", "C12_cm_step", "C12_cm_get_range", "C12_cm_get_rangeZ", "C12_cm_no_fault", "C12_cm_int32", "C12_cm_int32_go", "C12_cm_run", "C12_cm_consts", "C12_cm_pred_safe") + T(MCT, "entropy_consts", "range_consts", "consts_nonvacuous") + T(MBO, "entropy_layouts", "entropy_pairs_mirror"),
-    "streams": [ENTSMALL, RANGE, ANS1, CMPRED, ENTDIRECT],
-    "level_text": "PARTIAL PROOF. Proved in Lean, each as `decode (encode x ++ rest) = (x, rest)` for every trailing bit string (exact consumption): VarInt, alphabet (all three encodings), the NONE codec for every length incl. 0 and > 2^23, the ANS order-0 and Range frequency headers (correct iff the table sums to 2^lr - which C16_normalize guarantees: C12_freq_header_after_normalize), one rANS step incl. the reciprocal-multiply division for every frequency and state. The whole ANS order-0 codec is proved: one state over any symbol list, the 4 interleaved states sharing one word stream, header + chunk, and the complete block Write/Read with per-chunk normalised tables (C12_ans0_block: for all bytes, lr in [8,15], chunk size < 2^26, decode(encode blk ++ rest) = (blk, rest)); the same model is tied differentially (byte-identical output on thousands of blocks). The whole order-0 RANGE codec is proved too: the carry-less renormalisation loop leaves after at most 2 shifts with range > 0xFFFF (C12_range_renorm), one encodeByte/decodeByte pair keeps both sides' registers equal with the decoder's code inside [low, low+range) and exact consumption (C12_range_step), and Write+Dispose followed by any bits then Read returns the block and leaves those bits, for every length incl. 0, every chunk size and logRange 8..15 (C12_range_block); tied byte-exactly by the range stream incl. searched blocks that take the rare truncation / double-shift branches. The whole ANS order-1 codec is proved as well (256-context header with stale-table threading, one state over a quarter, the 4 interleaved quarters, chunk of every length incl. 0..3, whole block through the constructor's parameter rules: C12_ans1_block_ctor), byte-exact ans1 stream. The CM predictor is modelled with its int32 arithmetic and proved to be a safe predictor: counters stay within [0,65520] (one column 65535), every Get() is in [0,4095] for both bitstream versions, no index fault, no int32 wrap (C12_cm_*; C12_cm_pred_safe is the instance hypothesis of the generic binary-coder theorem); cmpred stream compares every Get() value. NOT modelled: the encoders' finite output buffers, Huffman, FPAQ, the binary arithmetic coder itself (slice in progress), TPAQ/TPAQX predictors - searched directly on the real code (entdirect: all 9 codecs, lengths around every chunk boundary, 1..256 symbols, adversarial histograms, misaligned start, trailing sentinel, Read()==Written()).",
+                + T("Kanzi.Properties.C12_cm", "C12_cm_init", "C12_cm_new", "C12_cm_step", "C12_cm_get_range", "C12_cm_get_rangeZ", "C12_cm_no_fault", "C12_cm_int32", "C12_cm_int32_go", "C12_cm_run", "C12_cm_consts", "C12_cm_pred_safe")
+                + T("Kanzi.Properties.C12_binary", "C12_binary_bits", "C12_binary_bits_number", "C12_binary_code_value_in_interval", "C12_binary_encode_total", "C12_binary_block", "C12_binary_reject", "C12_binary_block_real",
+                    "C12_binary_fits2_single", "C12_binary_block_states", "C12_binary_empty_mismatch", "C12_binary_flushed_le", "C12_binary_encode_single", "C12_binary_estimate_exceeded_adversarial", "C12_binary_expansion_limit")
+                + T("Kanzi.Properties.C12_fpaq", "C12_fpaq_model_safe", "C12_fpaq_encode_total", "C12_fpaq_block", "C12_fpaq_reject", "C12_fpaq_block_real", "C12_fpaq_fits2_single", "C12_fpaq_empty_mismatch")
+                + T("Kanzi.Properties.C12_cm_codec", "C12_cm_codec_safe", "C12_cm_encode_total", "C12_cm_block", "C12_cm_reject", "C12_cm_block_states")
+                + T("Kanzi.Properties.C12_tpaq", "C12_tpaq_init", "C12_tpaq_init_sizes", "C12_tpaq_new", "C12_tpaq_step", "C12_tpaq_get_range", "C12_tpaq_get_rangeZ", "C12_tpaq_final_pr", "C12_tpaq_no_fault",
+                    "C12_tpaq_no_fault_squash", "C12_tpaq_apm", "C12_tpaq_run", "C12_tpaq_pred_safe", "C12_tpaq_consts", "C12_tpaq_tables")
+                + T("Kanzi.Properties.C12_tpaq_codec", "C12_tpaq_codec_safe", "C12_tpaq_encode_total", "C12_tpaq_block", "C12_tpaq_reject") + T(MCT, "entropy_consts", "range_consts", "consts_nonvacuous") + T(MBO, "entropy_layouts", "entropy_pairs_mirror"),
+    "streams": [ENTSMALL, RANGE, ANS1, CMPRED, TPAQPRED, BINENT, FPAQ, ENTDIRECT],
+    "level_text": "PARTIAL PROOF. Proved in Lean, each as `decode (encode x ++ rest) = (x, rest)` for every trailing bit string (exact consumption): VarInt, alphabet (all three encodings), the NONE codec for every length incl. 0 and > 2^23, the ANS order-0 and Range frequency headers (correct iff the table sums to 2^lr - which C16_normalize guarantees: C12_freq_header_after_normalize), one rANS step incl. the reciprocal-multiply division for every frequency and state. The whole ANS order-0 codec is proved: one state over any symbol list, the 4 interleaved states sharing one word stream, header + chunk, and the complete block Write/Read with per-chunk normalised tables (C12_ans0_block: for all bytes, lr in [8,15], chunk size < 2^26, decode(encode blk ++ rest) = (blk, rest)); the same model is tied differentially (byte-identical output on thousands of blocks). The whole order-0 RANGE codec is proved too: the carry-less renormalisation loop leaves after at most 2 shifts with range > 0xFFFF (C12_range_renorm), one encodeByte/decodeByte pair keeps both sides' registers equal with the decoder's code inside [low, low+range) and exact consumption (C12_range_step), and Write+Dispose followed by any bits then Read returns the block and leaves those bits, for every length incl. 0, every chunk size and logRange 8..15 (C12_range_block); tied byte-exactly by the range stream incl. searched blocks that take the rare truncation / double-shift branches. The whole ANS order-1 codec is proved as well (256-context header with stale-table threading, one state over a quarter, the 4 interleaved quarters, chunk of every length incl. 0..3, whole block through the constructor's parameter rules: C12_ans1_block_ctor), byte-exact ans1 stream. The CM predictor is modelled with its int32 arithmetic and proved to be a safe predictor: counters stay within [0,65520] (one column 65535), every Get() is in [0,4095] for both bitstream versions, no index fault, no int32 wrap (C12_cm_*; C12_cm_pred_safe is the instance hypothesis of the generic binary-coder theorem); cmpred stream compares every Get() value. The binary arithmetic coder (BinaryEntropyCodec.go: engine of CM, TPAQ, TPAQX) is modelled with its exact 64-bit arithmetic and proved for EVERY predictor given as a deterministic state machine with Get() in [0,4095]: the encoder never fails (it grows its buffer: fixes F36), the code value stays in [low, high] (C12_binary_code_value_in_interval), and Write+Dispose followed by any bits then Read returns the block with exact consumption and equal predictor states, for every non-empty block, single or multi chunk (C12_binary_block*), under the explicit decidable hypothesis fits2 = 'every chunk flushes fewer than twice its length', which is proved to be EXACTLY the decoder's acceptance test (C12_binary_reject; a synthetic predictor violating it: C12_binary_expansion_limit); instantiated with the CM predictor model it gives the whole CM codec (C12_cm_block, either bitstream version). FPAQ (own probability model, 4 MiB chunks) is modelled and proved the same way (C12_fpaq_block under the decoder's size test). fits2 is NOT discharged for the real predictors (it needs a bound on total code length; the searched maximum expansion is 1.35x). binent / fpaq streams: exact bytes for table-driven predictors and for the real CM codec, oracle round trips with the real CM/TPAQ/TPAQX predictors incl. greedy and interval-straddling adversaries. NOT modelled: the encoders' finite output buffers of ANS/Huffman, Huffman (slice in progress). The TPAQ / TPAQX predictor is modelled with REAL int32 wrap-around (mixer dot products, hashes), sparse tables of the real sizes, the SQUASH/STRETCH tables built by the same loops as init() and compared by hash with the real ones through a verif-tagged export: on every reachable state 1 <= Get() <= 4095 and no table index is out of range, for every constructor context with block size and size >= 1 (C12_tpaq_run, C12_tpaq_no_fault, C12_tpaq_pred_safe), hence the TPAQ and TPAQX codecs are instances of the binary-coder theorem too (C12_tpaq_block); tpaqpred stream compares every Get() value of the real predictor - searched directly on the real code (entdirect: all 9 codecs, lengths around every chunk boundary, 1..256 symbols, adversarial histograms, misaligned start, trailing sentinel, Read()==Written()).",
     "level_note": BASE_NOTE + "logRange restricted to [8,15] as used by the factory (16 is accepted by the public constructors but unusable: observation in DESIGN.md).",
     "assumptions": ["adaptive binary codecs run the identical predictor on both sides (searched)"],
 }
 
 PROPS["C13"] = {
     "title": "Transforms: exact inverse pairs, in bounds, clean decline", "design_ref": "5.13", "level": "proof",
-    "technique": "PARTIAL Lean proof: Null, ZRLT, SBRT (all modes), RLT (incl. totality of Inverse on arbitrary input), SRT, PACK/DNA (alias codec), LZP, MM and the transform sequence with skip flags proved as inverse pairs with output bounds; byte-identical differential tie; all 19 transforms searched directly with canaries",
+    "technique": "PARTIAL Lean proof: Null, ZRLT, SBRT (all modes), RLT (incl. totality of Inverse on arbitrary input), SRT, PACK/DNA (alias codec), LZ/LZX, LZP, MM and the transform sequence with skip flags proved as inverse pairs with output bounds; byte-identical differential tie; all 19 transforms searched directly with canaries",
     "facts": ["Consts"],
     "theorems": T(M13, "C13_null", "C13_zrlt", "C13_zrlt_bytes", "C13_zrlt_no_wrap", "C13_sbrt", "C13_sequence", "C13_sequence_plain", "C13_sequence_all_declined", "C13_sequence_mode_byte", "C13_sequence_len", "C13_sequence_small", "C13_sequence_dst")
                 + T("Kanzi.Properties.C13_rlt", "C13_rlt", "C13_rlt_total", "C13_rlt_bytes", "C13_rlt_shorter")
                 + T("Kanzi.Properties.C13_srt", "C13_srt_header", "C13_srt_header_sharp", "C13_srt_header_bound", "C13_srt", "C13_srt_len", "C13_srt_size_sharp", "C13_srt_total_forward", "C13_srt_bytes", "C13_srt_preprocess_perm", "C13_srt_preprocess_sorted", "C13_srt_inverse_faults_short", "C13_srt_inverse_faults_sum", "C13_srt_inverse_faults_freq")
                 + T("Kanzi.Properties.C13_srt", "C13_srt_total_inverse_partial", partial=True)
                 + T("Kanzi.Properties.C13_alias", "C13_alias", "C13_alias_total", "C13_alias_bytes", "C13_alias_shorter", "C13_alias_any_injective_map", "C13_alias_one_symbol_accepted", "C13_alias_consts")
+                + T("Kanzi.Properties.C13_lz", "C13_lz_lengths", "C13_lz_lengths_wrap", "C13_lz_format", "C13_lz_forward_valid", "C13_lz", "C13_lz_bound", "C13_lz_total", "C13_lz_hash_fifth_byte")
+                + T("Kanzi.Properties.C13_lz", "C13_lz_inverse_fuel_partial", partial=True)
+                + T("Kanzi.Properties.C13_lz_consts", "lz_consts")
                 + T("Kanzi.Properties.C13_lzp", "C13_lzp", "C13_lzp_sync", "C13_lzp_total", "C13_lzp_bytes", "C13_lzp_shorter")
                 + T("Kanzi.Properties.C13_fsd", "C13_fsd", "C13_fsd_total", "C13_fsd_bytes", "C13_fsd_any_choice", "C13_fsd_zigzag", "C13_fsd_zigzag_delta") + T(MCT, "transform_consts", "io_consts", "rlt_consts"),
-    "streams": [TRSMALL, RLT, SRT, ALIAS, LZP, FSD, TRDIRECT],
-    "level_text": "PARTIAL PROOF. Proved for all blocks: Null, ZRLT (output <= MaxEncodedLen, inverse restores), SBRT in every mode; the transform sequence for up to 8 stages and every pattern of declining stages (skip flags in the mode byte or the extra byte recover exactly; all-declined leaves the block; composed MaxEncodedLen bounds the output). Models tied by byte-identical outputs on tens of thousands of blocks. RLT is modelled completely (escape selection, DetectSimpleType, both early declines, 1/2/3-byte run lengths, pending byte, tail) and proved: accepted blocks are strictly shorter, fit MaxEncodedLen and are restored by Inverse into any destination >= the original length, and NEITHER direction can index out of range - Inverse on ARBITRARY input returns ok or a clean error (C13_rlt, C13_rlt_total, C13_rlt_shorter); byte-exact rlt stream (both defects F28/F29 are flagged on the pre-fix file). SRT is modelled completely (Shell sort of the symbols proved to be a sorting permutation, 1..5-byte varint header, rank coding): for every block below 2^31 bytes Forward never declines or faults, its output is at most len+1028 <= MaxEncodedLen bytes (len <= 2^30) and Inverse restores the block (C13_srt, C13_srt_len, C13_srt_size_sharp); Inverse cannot fault on a well-formed header (C13_srt_total_inverse_partial - PARTIAL: on malformed input it DOES index out of range, proved as C13_srt_inverse_faults_*; such faults are outside C13 and are recovered by the decoding task, see DESIGN §6 observations); byte-exact srt stream. The alias codec (PACK and DNA) is modelled completely (one-symbol, 2-bit and 4-bit packing, the digram path with its order-1 histogram, merge sort and alias map, every decline, the dataType write-back): accepted blocks are strictly shorter, fit MaxEncodedLen and are restored exactly for both variants and every hint; correctness holds for ANY injective alias map onto unused bytes (C13_alias_any_injective_map); Forward never faults, Inverse never faults on a Forward output, and on arbitrary input it faults exactly when the decidable predicate invSafe is false (C13_alias_total; those malformed-input faults are observations, recovered by the decoding task); byte-exact alias stream. LZP is modelled completely (uint32 context hash, 65536-entry position table, 254-step length coding, both copy branches): accepted blocks are restored by Inverse, and the encoder and decoder hash tables and contexts are proved equal at EVERY step (C13_lzp, C13_lzp_sync); Forward never faults; Inverse on arbitrary input returns data, a clean error or exactly one of two index faults whose conditions are proved (observations). MM (fixed-step delta codec) is modelled completely incl. the magic-number test, the three-window entropy sampling with the real log2 tables and the delta/xor choice: round trip for every (distance, mode) choice (C13_fsd_any_choice), accepted blocks fit and are restored (C13_fsd), and BOTH directions are total - Inverse cannot fault on any input (C13_fsd_total); zigzag tables proved mutually inverse. Byte-exact lzp and fsd streams. NOT modelled: BWT/BWTS, LZ/LZX, ROLZ/ROLZX, TEXT, UTF, EXE - searched directly on the real code (trdirect: every transform and the CLI chains, pipeline buffer sizes with canaries, input-intact checks, data-type hints, all data shapes).",
+    "streams": [TRSMALL, RLT, SRT, ALIAS, LZ, LZP, FSD, TRDIRECT],
+    "level_text": "PARTIAL PROOF. Proved for all blocks: Null, ZRLT (output <= MaxEncodedLen, inverse restores), SBRT in every mode; the transform sequence for up to 8 stages and every pattern of declining stages (skip flags in the mode byte or the extra byte recover exactly; all-declined leaves the block; composed MaxEncodedLen bounds the output). Models tied by byte-identical outputs on tens of thousands of blocks. RLT is modelled completely (escape selection, DetectSimpleType, both early declines, 1/2/3-byte run lengths, pending byte, tail) and proved: accepted blocks are strictly shorter, fit MaxEncodedLen and are restored by Inverse into any destination >= the original length, and NEITHER direction can index out of range - Inverse on ARBITRARY input returns ok or a clean error (C13_rlt, C13_rlt_total, C13_rlt_shorter); byte-exact rlt stream (both defects F28/F29 are flagged on the pre-fix file). SRT is modelled completely (Shell sort of the symbols proved to be a sorting permutation, 1..5-byte varint header, rank coding): for every block below 2^31 bytes Forward never declines or faults, its output is at most len+1028 <= MaxEncodedLen bytes (len <= 2^30) and Inverse restores the block (C13_srt, C13_srt_len, C13_srt_size_sharp); Inverse cannot fault on a well-formed header (C13_srt_total_inverse_partial - PARTIAL: on malformed input it DOES index out of range, proved as C13_srt_inverse_faults_*; such faults are outside C13 and are recovered by the decoding task, see DESIGN §6 observations); byte-exact srt stream. The alias codec (PACK and DNA) is modelled completely (one-symbol, 2-bit and 4-bit packing, the digram path with its order-1 histogram, merge sort and alias map, every decline, the dataType write-back): accepted blocks are strictly shorter, fit MaxEncodedLen and are restored exactly for both variants and every hint; correctness holds for ANY injective alias map onto unused bytes (C13_alias_any_injective_map); Forward never faults, Inverse never faults on a Forward output, and on arbitrary input it faults exactly when the decidable predicate invSafe is false (C13_alias_total; those malformed-input faults are observations, recovered by the decoding task); byte-exact alias stream. LZP is modelled completely (uint32 context hash, 65536-entry position table, 254-step length coding, both copy branches): accepted blocks are restored by Inverse, and the encoder and decoder hash tables and contexts are proved equal at EVERY step (C13_lzp, C13_lzp_sync); Forward never faults; Inverse on arbitrary input returns data, a clean error or exactly one of two index faults whose conditions are proved (observations). MM (fixed-step delta codec) is modelled completely incl. the magic-number test, the three-window entropy sampling with the real log2 tables and the delta/xor choice: round trip for every (distance, mode) choice (C13_fsd_any_choice), accepted blocks fit and are restored (C13_fsd), and BOTH directions are total - Inverse cannot fault on any input (C13_fsd_total); zigzag tables proved mutually inverse. Byte-exact lzp and fsd streams. LZ / LZX (the LZ77 codec, bitstream version 6) is modelled completely - both 64-bit hash functions, hash table, lazy matching, repeat distances, token / length / distance coding in four sections, every decline; the decoder with its 16-byte overshooting copy loop - and proved: the 1/3/4-byte length coding is an inverse pair below 2^24+255 and wraps beyond (the cause of F31: C13_lz_lengths, C13_lz_lengths_wrap); the decoder is correct for EVERY valid token stream (C13_lz_format); every stream the encoder emits is a valid token stream denoting the block (C13_lz_forward_valid: no claim about match quality); hence Inverse(Forward b) = b, within MaxEncodedLen (C13_lz, C13_lz_bound); Forward never faults - incl. the never-grown token buffer, which is large enough only because both hashes are injective in the fifth byte (C13_lz_hash_fifth_byte) - and Inverse never faults on a Forward output (C13_lz_total); faults of Inverse on forged input are observations (the model is the exact no-panic predicate: C13_lz_inverse_fuel_partial). Byte-exact lz stream. NOT modelled: BWT/BWTS, ROLZ/ROLZX, TEXT, UTF, EXE - searched directly on the real code (trdirect: every transform and the CLI chains, pipeline buffer sizes with canaries, input-intact checks, data-type hints, all data shapes).",
     "level_note": BASE_NOTE + "'input left unmodified' is immediate in the value-level model and checked on the real buffers by the trdirect oracle.",
     "assumptions": [],
 }
